@@ -97,6 +97,11 @@ def norm_cfg(cfg: dict) -> dict:
         om = OLD_MODES[(3 * c["nt"] + c["nc"] + len(c["dest"]) + 2 * len(c["backed"]) + c["par"] + c["lim"] + sum(c["pre"])
                         + len(c["other"])) % len(OLD_MODES)]
     c["om"] = int(om)
+    # the target of the destination symlink lives on ANOTHER FILE SYSTEM than the directory the save was asked to
+    # write into (not in the spec cfg, whose destination is just "symlink"); a rename across the two fails with EXDEV
+    c["xdev"] = bool(cfg.get("xdev", False))
+    if c["xdev"] and (c["dest"] != "symlink" or c["shard"] or c["backed"]):
+        raise ValueError("xdev needs a single-file save to a symlinked destination that backs no tensor")
     return c
 
 
@@ -121,6 +126,8 @@ def cfg_key(c: dict, spec_only: bool = False) -> str:
             s += f"-bv{c['bv']}"
         if c.get("om", OLD_MODE) != OLD_MODE:
             s += f"-m{c['om']:o}"
+        if c.get("xdev"):
+            s += "-xdev"
     return s
 
 
@@ -237,8 +244,56 @@ def file_names(c: dict) -> list:
     return [DATA_NAME] + [get_shard_filename(DATA_NAME, i, n) for i in range(1, n + 1)]
 
 
-def real_rel(c: dict) -> str:
-    return os.path.join("real", "w.bin") if c["dest"] == "symlink" else DATA_NAME
+XDEV_ROOTS = ("/dev/shm", "/run/shm", "/run/user/%d" % os.getuid(), "/var/tmp", "/tmp")
+
+
+def xdev_root(d: str):
+    """A writable directory on another file system than d (None if the machine has none)."""
+    probe = os.path.abspath(d)
+    while not os.path.exists(probe):
+        probe = os.path.dirname(probe)
+    dev = os.stat(probe).st_dev
+    for root in XDEV_ROOTS:
+        try:
+            if os.stat(root).st_dev != dev and os.access(root, os.W_OK | os.X_OK):
+                return root
+        except OSError:
+            continue
+    return None
+
+
+def real_dir(c: dict, d: str) -> str:
+    """Directory of the file a symlinked destination points to."""
+    if c.get("xdev"):
+        import zlib
+
+        root = xdev_root(d)
+        if root is None:
+            raise OSError("no second writable file system on this machine")
+        tag = "%08x" % zlib.crc32(os.path.abspath(d).encode())
+        return os.path.join(root, f"vf-c08-x-{os.path.basename(d)}-{tag}", "real")
+    return os.path.join(d, "real")
+
+
+def real_path(c: dict, d: str) -> str:
+    return os.path.join(real_dir(c, d), "w.bin") if c["dest"] == "symlink" else os.path.join(d, DATA_NAME)
+
+
+def link_text(c: dict, d: str) -> str:
+    """What the destination symlink holds: a relative path inside d, an absolute one across file systems."""
+    return real_path(c, d) if c.get("xdev") else os.path.join("real", "w.bin")
+
+
+def remove_dirs(c: dict, d: str) -> None:
+    import shutil
+
+    shutil.rmtree(d, ignore_errors=True)
+    shutil.rmtree(d + SIB_SUFFIX, ignore_errors=True)
+    if c.get("xdev"):
+        try:
+            shutil.rmtree(os.path.dirname(real_dir(c, d)), ignore_errors=True)
+        except OSError:
+            pass
 
 
 def prepare_dir(c: dict, d: str) -> None:
@@ -251,9 +306,9 @@ def prepare_dir(c: dict, d: str) -> None:
     if c["dest"] == "file":
         _write(os.path.join(d, DATA_NAME), old_bytes(c), old_mode(c))
     elif c["dest"] == "symlink":
-        os.makedirs(os.path.join(d, "real"), exist_ok=True)
-        _write(os.path.join(d, real_rel(c)), old_bytes(c), old_mode(c))
-        os.symlink(real_rel(c), os.path.join(d, DATA_NAME))
+        os.makedirs(real_dir(c, d), exist_ok=True)
+        _write(real_path(c, d), old_bytes(c), old_mode(c))
+        os.symlink(link_text(c, d), os.path.join(d, DATA_NAME))
     if c.get("bv") == "rel" or (c.get("other") and c["ov"] == "c"):
         os.makedirs(os.path.join(d, SUB_NAME), exist_ok=True)
     if c.get("bv") == "hard":
@@ -300,17 +355,17 @@ def observe(c: dict, d: str) -> dict:
     names = file_names(c)
     base_dirs = [d]
     if c["dest"] == "symlink":
-        base_dirs.append(os.path.join(d, "real"))
+        base_dirs.append(real_dir(c, d))
     files, modes, details = [], [], []
     for f, name in enumerate(names, start=1):
-        p = os.path.join(d, real_rel(c)) if (not c["shard"] and c["dest"] == "symlink") else os.path.join(d, name)
+        p = real_path(c, d) if (not c["shard"] and c["dest"] == "symlink") else os.path.join(d, name)
         k, m, det = _classify(c, f, p)
         files.append(k)
         modes.append(m)
         details.append(det)
     link = os.path.islink(os.path.join(d, DATA_NAME)) if not c["shard"] else False
     if c["dest"] == "symlink" and link:
-        link = os.readlink(os.path.join(d, DATA_NAME)) == real_rel(c)
+        link = os.readlink(os.path.join(d, DATA_NAME)) == link_text(c, d)
     tdirs, tfile, extra = [], {"k": "absent", "sz": 0, "ch": []}, []
     known = set(names) | {MODEL_NAME, "real"}
     if c.get("bv") == "hard":
@@ -342,7 +397,7 @@ def observe(c: dict, d: str) -> dict:
                         tfile = _content(c, fidx, fh.read())
             elif bd == d and e not in known:
                 extra.append(e)
-            elif bd != d and e != os.path.basename(real_rel(c)):
+            elif bd != d and e != "w.bin":
                 extra.append(os.path.join("real", e))
     mp = os.path.join(d, MODEL_NAME)
     model = "absent"
@@ -365,7 +420,7 @@ def observe(c: dict, d: str) -> dict:
 def _file_index_of_tmp(c: dict, names: list, tmpdir_name: str) -> int:
     # temp dir is ".<basename of destination>.<random>"
     for f, name in enumerate(names, start=1):
-        base = os.path.basename(real_rel(c)) if (not c["shard"] and c["dest"] == "symlink") else name
+        base = "w.bin" if (not c["shard"] and c["dest"] == "symlink") else name
         if tmpdir_name.startswith("." + base + "."):
             return f
     return 1
@@ -697,7 +752,7 @@ def parse_strace(log_path: str, c: dict, d: str, cwd: str | None = None) -> SysT
     d = os.path.abspath(d)
     names = file_names(c)
     dest_paths = {os.path.join(d, n): i for i, n in enumerate(names, start=1)}
-    real = os.path.join(d, real_rel(c)) if (not c["shard"] and c["dest"] == "symlink") else None
+    real = real_path(c, d) if (not c["shard"] and c["dest"] == "symlink") else None
     if real:
         dest_paths[real] = 1
     if c.get("bv") == "hard":
@@ -733,7 +788,7 @@ def parse_strace(log_path: str, c: dict, d: str, cwd: str | None = None) -> SysT
     def is_tmpdir(p):
         b = os.path.basename(p.rstrip("/"))
         m = tmp_re.match(b)
-        return bool(m) and os.path.dirname(p.rstrip("/")) in {d, os.path.join(d, "real")}
+        return bool(m) and os.path.dirname(p.rstrip("/")) in {d, real_dir(c, d) if c["dest"] == "symlink" else d}
 
     def is_tmpfile(p):
         return is_tmpdir(os.path.dirname(p))
@@ -983,6 +1038,43 @@ class PyLayer:
                 h.effect("Replace", w=0)
                 return os.replace(src, dst, **kw)
 
+        def move(src, dst, copy_function=None):
+            # shutil.move spelled out (documented behaviour: "If the destination is on the current filesystem, then
+            # os.rename() is used. Otherwise, src is copied to dst using copy_function and then removed"), so that
+            # each file-system effect of it is an effect of the save - same names as the syscall layer uses
+            if copy_function is not None or os.path.isdir(dst) or os.path.isdir(src):
+                with h.lock:
+                    h.effect("Replace", w=0)
+                    return shutil.move(src, dst) if copy_function is None else shutil.move(src, dst, copy_function)
+            with h.lock:
+                ev = h.effect("Replace", w=0)
+                try:
+                    os.rename(src, dst)
+                    return dst
+                except OSError:
+                    h.patch_last(ev, "fail")
+            with h.lock:
+                h.effect("OpenDestForWrite", w=0)
+                out = io.FileIO(dst, "wb")
+            try:
+                with io.FileIO(src, "rb") as inp:
+                    while True:
+                        chunk = inp.read(CH)
+                        if not chunk:
+                            break
+                        with h.lock:
+                            h.effect("WriteDest", w=0)
+                            out.write(chunk)
+            finally:
+                out.close()
+            with h.lock:
+                h.effect("CopyMode", w=0)
+                shutil.copystat(src, dst)
+            with h.lock:
+                h.effect("RmTmpFile", w=0)
+                os.unlink(src)
+            return dst
+
         def remove(path, **kw):
             with h.lock:
                 ev = h.effect("RmTmpFile", w=0)
@@ -1025,7 +1117,7 @@ class PyLayer:
                                         "chmod": chmod}))
         self._set(ed, "tempfile", _Proxy(tempfile, {"mkdtemp": mkdtemp}))
         if hasattr(ed, "shutil"):
-            self._set(ed, "shutil", _Proxy(shutil, {"copymode": copymode, "copystat": copymode}))
+            self._set(ed, "shutil", _Proxy(shutil, {"copymode": copymode, "copystat": copymode, "move": move}))
         self._set(ed, "open", probe_open, must_exist=False)
         self._set(ed, "_check_no_existing_shard_files", check_exists)
         self._set(_io, "onnx", _Proxy(onnx, {"save": onnx_save}))
@@ -1187,10 +1279,7 @@ def py_job(job: dict) -> dict:
     res["fault"] = fault
     res["layer"] = "py"
     if not job.get("keep"):
-        import shutil
-
-        shutil.rmtree(d, ignore_errors=True)
-        shutil.rmtree(d + SIB_SUFFIX, ignore_errors=True)
+        remove_dirs(c, d)
     return res
 
 
@@ -1353,9 +1442,11 @@ def sys_job(job: dict) -> dict:
             except OSError:
                 pass
             e = p.communicate()[1]
+            obs_ = observe(c, d)
+            remove_dirs(c, d)
             return {"cfg": c, "inject": inj, "rc": -998, "stderr": "strace could not attach: " + (e or "")[-300:], "res": {},
                     "layer": "sys", "events": [], "positions": [], "begin": False, "end": False, "injected": 0,
-                    "killed_in": None, "unmapped": [], "obs": observe(c, d), "attach_failed": True}
+                    "killed_in": None, "unmapped": [], "obs": obs_, "attach_failed": True}
         os.write(w_go, b"x")
         os.close(w_go)
         status, deadline = None, time.time() + timeout
@@ -1403,8 +1494,7 @@ def sys_job(job: dict) -> dict:
                    parse_error=str(e))
     out["obs"] = observe(c, d)
     if not job.get("keep"):
-        shutil.rmtree(d, ignore_errors=True)
-        shutil.rmtree(d + SIB_SUFFIX, ignore_errors=True)
+        remove_dirs(c, d)
         for x in (log, rpath):
             try:
                 os.unlink(x)
